@@ -11,6 +11,7 @@
                   outherm <stored k Hermitian, max over k>"
    cells e_0 … e_n                            -> coeffs(0..n-1) from η grid values (exact)
    dt T n                                     -> time_step_length
+   unique t_0 t_1 …                           -> model of TIBaseBackend._unique: indices ; projection ; column sums
    hist n calls dt                            -> step ; len(data) ; label times ; data indices ; state index -/
 import OQuPyVerif.Model.ProtoQI
 import OQuPyVerif.Lemmas.GibbsSpec
@@ -81,8 +82,18 @@ def runHist (n : Int) (calls : Nat) (dt : Rat) : String :=
   let last := match gState o with | some p => toString p.2 | none => "none"
   s!"{st};{o.dataLen};{showRats (o.dyn.map (fun p => gibbs_time dt p.1))};{" ".intercalate (o.dyn.map (fun p => toString p.2))};{last}"
 
+/-- "unique t_0 t_1 …" (tokens compared as strings; equal numbers have equal tokens):
+    indices ; projection rows separated by " | " ; column sums -/
+def runUnique (toks : List String) : String :=
+  let idx := uniqIndices toks
+  let rows := uniqProj toks
+  let cols := (List.range toks.length).map (fun a => classCount toks a)
+  let sh (l : List Nat) : String := " ".intercalate (l.map toString)
+  s!"{sh idx} ; {" | ".intercalate (rows.map sh)} ; {sh cols}"
+
 def step (line : String) : String :=
   match words line with
+  | "unique" :: rest => if rest.isEmpty then "bad-op" else runUnique rest
   | "cells" :: rest =>
     match rest.mapM parseRat? with
     | some es => if es.length < 2 then "bad-op" else runCells es
